@@ -253,6 +253,42 @@ def natural_variants(ctx, seed, n, si, sn):
                 content, typed[0].sig, got), w, case)
 
 
+def byte_strings_as_arrays(ctx):
+    """A bytearray (or bytes) handed in where an array of some numeric type is declared: iterating it yields integers, so
+    it is a value of 'an', 'au', 'ad', ... as much as of 'ay' - and is encoded as THAT array (element size, alignment
+    padding, byte order), not as a run of bytes."""
+    data = [0, 1, 2, 250, 7]
+    for et in 'ynqiuxtdb':
+        for ctor in (bytearray, bytes):
+            for little in (True, False):
+                for off in (0, 4, 5):
+                    for wrap_sig, wrap in (('a%s', lambda v: [v]), ('ya%s', lambda v: [9, v]), ('(a%s)s', lambda v: [(v,), 'x'])):
+                        sig = wrap_sig % et
+                        case = {'stream': 'byte-strings', 'sig': sig, 'ctor': ctor.__name__}
+                        ctx.count('evaluations')
+                        ctx.count('byte_string_array_cases')
+                        try:
+                            n, chunks = M.marshal(sig, wrap(ctor(data)), off, little)
+                        except Exception:
+                            ctx.count('byte_string_array_refused')      # refusing is not judged
+                            continue
+                        raw = b''.join(chunks)
+                        w = {'sig': sig, 'given': '%s(%r)' % (ctor.__name__, data), 'little': little, 'offset': off, 'bytes': raw}
+                        try:
+                            typed, end = R.decode(sig, b'\xEE' * off + raw, off, little, strict=True)
+                        except R.CodecError as e:
+                            ctx.report('not-wire-format', 'bytes produced for %r given a %s are not valid DBus encoding: %s' % (
+                                sig, ctor.__name__, e), w, case)
+                            continue
+                        arr = [x for x in R.plain_list(sig, typed) if isinstance(x, list)]
+                        arr = arr[0][0] if arr and arr[0] and isinstance(arr[0][0], list) else (arr[0] if arr else None)
+                        want = [bool(x) for x in data] if et == 'b' else [float(x) for x in data] if et == 'd' else data
+                        if arr != want or n != len(raw):
+                            w['reference_reads'] = repr(arr)
+                            ctx.report('encodes-other-value', 'bytes produced for %r given %s(%r) read as %r' % (
+                                sig, ctor.__name__, data, arr), w, case)
+
+
 def foreign_case(seed, idx):
     r = CC.case_rng(seed, 'foreign', idx)
     g = gen.Gen(r, max_depth=r.choice([2, 3, 4]), big=(r.random() < 0.1), free_variants=True)
@@ -276,6 +312,7 @@ def run(ctx):
     alignment_table(ctx)
     unrepresentable_text(ctx)
     repeated_descriptors(ctx)
+    byte_strings_as_arrays(ctx)
     ctx.budget(30 if ctx.tier == 'quick' else 420)
     n = 0
     for idx, sig, combos in CC.enumerated(ctx.tier, ctx.shard):
@@ -337,6 +374,8 @@ def replay(ctx, rp):
     elif st == 'foreign':
         sig, tv, little, off = foreign_case(seed, case['idx'])
         dir_b(ctx, sig, tv, little, off, case)
+    elif st == 'byte-strings':
+        byte_strings_as_arrays(ctx)
     elif st == 'natural':
         natural_variants(ctx, seed, 1, case['idx'], 10**9)
     elif st == 'repeated-fds':
